@@ -71,6 +71,9 @@ pub enum Mut {
     /// the a-th indirect reference `n g R` is pointed at the object number of the b-th `n g obj` header (or of
     /// another reference): Length -> itself, Kids/Parent rings, references into object streams
     RefRetarget(u16, u16),
+    /// the idx-th number becomes the length of the file plus a small delta: lengths, offsets and counts that are just
+    /// inside / just outside the buffer (boundary arithmetic of `start + length` against the file size)
+    NumberNearLen(u16, i8),
 }
 
 fn pos(p: u16, len: usize) -> usize {
@@ -209,6 +212,14 @@ pub fn apply(mut b: Vec<u8>, muts: &[Mut]) -> Vec<u8> {
                     b.splice(s..e, rep.iter().cloned());
                 }
             }
+            Mut::NumberNearLen(idx, delta) => {
+                let toks = number_tokens(&b);
+                if !toks.is_empty() {
+                    let (s, e) = toks[(*idx as usize * toks.len()) >> 16];
+                    let v = (b.len() as i64 + *delta as i64).max(0);
+                    b.splice(s..e, v.to_string().into_bytes());
+                }
+            }
             Mut::NumberCopy(idx, src) => {
                 let toks = number_tokens(&b);
                 if !toks.is_empty() {
@@ -274,6 +285,7 @@ pub fn mut_strategy() -> BoxedStrategy<Mut> {
         1 => (any::<u16>(), any::<u16>(), 1u8..60).prop_map(|(f, t, l)| Mut::Dup(f, t, l)),
         6 => (any::<u16>(), any::<u8>()).prop_map(|(i, v)| Mut::Number(i, v)),
         3 => (any::<u16>(), any::<u16>()).prop_map(|(i, s)| Mut::NumberCopy(i, s)),
+        3 => (any::<u16>(), prop_oneof![4 => -20i8..=2, 1 => any::<i8>()]).prop_map(|(i, d)| Mut::NumberNearLen(i, d)),
         3 => (any::<u16>(), any::<u8>()).prop_map(|(i, k)| Mut::Keyword(i, k)),
         4 => (any::<u16>(), any::<u16>(), any::<u8>()).prop_map(|(a, b, m)| Mut::XrefLink(a, b, m)),
         3 => (any::<u16>(), any::<u16>()).prop_map(|(a, b)| Mut::RefRetarget(a, b)),
